@@ -17,7 +17,7 @@ def rets(P, fn):
 def run(chk, tier):
     P = Prog("default")
     chk.configs.add("default")
-    for r in (r_epoch, r_from_timestamp, r_units, r_accessors, r_wrappers, r_timestamp_map, r_absint):
+    for r in (r_epoch, r_from_timestamp, r_units, r_accessors, r_wrappers, r_opt_wrappers, r_timestamp_map, r_absint):
         chk.guarded(r, P, tier)
     chk.guarded(c07.r_boxes, P, tier)   # the nanosecond-field acceptance (leap second only on second 59) is the NaiveTime box
     chk.assume("exact equality of the two directions and SystemTime interop are value-level and not decided")
@@ -302,3 +302,8 @@ def r_timestamp_map(chk, P, tier):
         chk.ok("value")
     for cls, (a, got, w) in sorted(bad.items()):
         chk.bad(cls, "%s%s folds to %s, the calendar oracle gives %s (yof, second of day, nanosecond)" % (cls.split(" ")[0], a if isinstance(a, tuple) else "(%s)" % a, got, w), loc=P.loc(U + "from_timestamp"))
+
+
+def r_opt_wrappers(chk, P, tier=None):
+    import rules
+    rules.opt_wrappers(chk, P, ("offset::TimeZone::", "datetime::DateTime::"), floor=6)
